@@ -610,6 +610,99 @@ let run_frp_guided oc (name, lines) =
       end) lines;
   Printf.fprintf oc "---\n"
 
+
+(* ---------- heap model (Model/Heap.v): what each script line allocates on the collector's heap ---------- *)
+let oname_str = function
+  | NStreamNew -> "Stream::new" | NStreamCo -> "Stream::_new_with_coalescer" | NStreamMap -> "Stream::map"
+  | NStreamFilter -> "Stream::filter" | NStreamMerge -> "Stream::merge" | NCellHold -> "Cell::hold"
+  | NCellNew -> "Cell::new" | NStreamListen -> "Stream::listen" | NListener -> "Listener::new"
+  | NStreamLoop -> "StreamLoop::new"
+
+exception Unsupported of string
+
+let hops_of_line (line : string) : hop list =
+  let w = split_ws line in
+  let n x = nat_of_int (int_of_string x) in
+  let nofun f = if String.length f >= 4 && String.sub f 0 4 = "sel:" then raise (Unsupported "function capturing handles") in
+  match w with
+  | ["sink"; h] -> [HDef (n h, PSink, [])]
+  | ["sink_co"; h; _] -> [HDef (n h, PSinkCo, [])]
+  | ["never"; h] -> [HDef (n h, PNever, [])]
+  | ["csink"; h; _] -> [HDef (n h, PCSink, [])]
+  | ["const"; h; _] -> [HDef (n h, PConst, [])]
+  | ["map"; h; s; f] -> nofun f; [HDef (n h, PMap, [n s])]
+  | ["map_to"; h; s; _] -> [HDef (n h, PMap, [n s])]
+  | ["filter"; h; s; _] -> [HDef (n h, PFilter, [n s])]
+  | ["filter_opt"; h; s] -> [HDef (n h, PFilterOpt, [n s])]
+  | ["merge"; h; a; b; _] | ["or_else"; h; a; b] -> [HDef (n h, PMerge, [n a; n b])]
+  | "snapshot" :: h :: s :: _ :: cs when cs <> [] -> [HDef (n h, PSnapshot, n s :: List.map n cs)]
+  | ["snapshot1"; h; s; c] -> [HDef (n h, PSnapshot, [n s; n c])]
+  | ["gate"; h; s; c] -> [HDef (n h, PGate, [n s; n c])]
+  | ["hold"; h; s; _] -> [HDef (n h, PHold, [n s])]
+  | ["updates"; h; c] -> [HUpdates (n h, n c)]
+  | ["value"; h; c] -> [HDef (n h, PValue, [n c])]
+  | ["map_c"; h; c; f] -> nofun f; [HDef (n h, PMapC, [n c])]
+  | "lift" :: h :: _ :: cs when List.length cs >= 2 -> [HLift (n h, List.map n cs)]
+  | ["accum"; h; s; _; _] -> [HDef (n h, PAccum, [n s])]
+  | ["collect"; h; s; _; _; _] -> [HDef (n h, PCollect, [n s])]
+  | ["defer"; h; s] -> [HDef (n h, PDefer, [n s])]
+  | ["split"; h; s] -> [HDef (n h, PSplit, [n s])]
+  | ["sloop"; h] -> [HDef (n h, PSLoop, [])]
+  | ["cloop"; h] -> [HDef (n h, PCLoop, [])]
+  | ["sloop_close"; l; t] | ["cloop_close"; l; t] -> [HLoop (n l, n t)]
+  | ["listen"; l; s] -> [HListen (n l, n s, true)]
+  | ["listen_weak"; l; s] -> [HListen (n l, n s, false)]
+  | ["listen_c"; l; c] -> [HListenC (n l, n c)]
+  | ["unlisten"; l] -> [HUnlisten (n l)]
+  | ["drop_l"; l] -> [HDropL (n l)]
+  | ["drop_weak"; l] -> [HDropL (n l); HCollect]
+  | ["clone"; a; b] -> [HClone (n a, n b)]
+  | ["drop"; h] -> [HDrop (n h)]
+  | ["gc"] -> [HCollect]
+  | ("send" | "sample" | "{" | "}" | "tnew" | "tclose" | "tdrop" | "post" | "nodes" | "drop_lazies") :: _ -> [HNop]
+  | op :: _ -> raise (Unsupported op)
+  | [] -> [HNop]
+
+let heap_view (st : hstate) : string =
+  let rows = List.map (fun r ->
+      Printf.sprintf "%d:%s:%d:%d:%d:%s" (int_of_nat r.v_id) (oname_str r.v_name) (if r.v_freed then 1 else 0)
+        (int_of_nat r.v_rc) (int_of_nat r.v_handles)
+        (String.concat "." (List.map string_of_int (List.sort compare (List.map int_of_nat r.v_edges)))))
+      (hview st) in
+  Printf.sprintf "H=%s n=%d" (String.concat "/" rows) (int_of_nat (live_nodes st))
+
+(* lines carry " || A" where the implementation audited (a collection had just run): the model collects there
+   too and prints its view; the last line "teardown" releases everything the model still holds, collects, and
+   reports what is left *)
+let run_heap_script oc (name, lines) =
+  Printf.fprintf oc "# %s\n" name;
+  let st = ref hinit and stopped = ref false in
+  let step op =
+    match hstep !st op with
+    | Ok s1 -> st := s1
+    | Panic _ -> stopped := true; Printf.fprintf oc "model-panic\n"
+    | OutOfFuel -> stopped := true; Printf.fprintf oc "model-outoffuel\n" in
+  List.iter (fun raw ->
+      if not !stopped then begin
+        let (line, mark) = split_expected raw in
+        (try
+           List.iter step (hops_of_line line);
+           if not !stopped then begin
+             if mark <> None then begin
+               step HCollect;
+               if not !stopped then Printf.fprintf oc "%s\n" (heap_view !st)
+             end else Printf.fprintf oc "-\n"
+           end
+         with Unsupported what -> stopped := true; Printf.fprintf oc "unsupported %s\n" what)
+      end) lines;
+  if not !stopped then begin
+    List.iter step (teardown !st);
+    step HCollect;
+    if not !stopped then
+      Printf.fprintf oc "teardown held=%d n=%d\n" (List.length (held !st)) (int_of_nat (live_nodes !st))
+  end;
+  Printf.fprintf oc "---\n"
+
 (* ---------- C20: thread schedules on one context, run on the model ---------- *)
 let run_thr_script oc (name, lines) =
   Printf.fprintf oc "# %s\n" name;
@@ -728,6 +821,8 @@ let () =
     List.iter (run_frp_guided stdout) (read_scripts stdin)
   | _ :: "frp-run" :: _ ->
     List.iter (run_frp_script stdout) (read_scripts stdin)
+  | _ :: "heap-run" :: _ ->
+    List.iter (run_heap_script stdout) (read_scripts stdin)
   | _ :: "gc-run" :: _ ->
     List.iter (run_gc_script stdout) (read_scripts stdin)
   | _ :: "gc-enum" :: n :: e :: h :: d :: _ ->
